@@ -36,8 +36,9 @@ def _(eng, ci, a, dt):
 
 @icp('language::get_default_language', 'fn get_default_language')
 def _(eng, ci, a, dt):
-    eng.assumptions.add('intercept language::get_default_language: opaque &Language')
-    return Ref([Opaque('language')], 0)
+    eng.assumptions.add('intercept language::get_default_language: &Language with code "en", tables opaque')
+    from .rtm import _language_en
+    return Ref([_language_en(eng)], 0)
 
 
 def install(eng):
